@@ -95,6 +95,7 @@ type qThread struct {
 	gid     uint64
 	state   int
 	short   bool
+	started time.Time
 	release chan struct{}
 	last    qCons
 }
@@ -432,6 +433,7 @@ func (r *qRunner) apply(op qOp) {
 		}
 		th.short = op.S == 1
 		short := th.short
+		th.started = time.Now()
 		r.spawn(th, func() qEvent {
 			res := r.ut.poll(short)
 			return qEvent{th: th, kind: "ret", res: res}
@@ -440,6 +442,15 @@ func (r *qRunner) apply(op qOp) {
 		th := r.cons[op.C]
 		if th.state != tHeld {
 			return
+		}
+		if th.short {
+			// A consumer with the short poll timeout is released only once its timer has
+			// certainly expired, so that its select sees the timer ready (and, when a token is
+			// pending too, Go picks one of the two ready cases at random): the timeout branch is
+			// exercised by every such schedule, not only on a slow machine.
+			if d := time.Until(th.started.Add(qShortTimeout + 4*time.Millisecond)); d > 0 {
+				time.Sleep(d)
+			}
 		}
 		th.state = tRunning
 		th.release <- struct{}{}
@@ -1026,11 +1037,27 @@ func queuesMain(args []string) error {
 			interleavings(cfg.progs, func(ops []qOp) {
 				cnt++
 				if *mode == "forced" && nerr < 4 {
-					c := runQCase(cfg.queue, cfg.nc, cfg.name, ops)
-					if c.Err != "" {
-						nerr++
+					// a schedule with a short-timeout consumer has a random outcome when timer
+					// and token are both ready: run it several times, keep each distinct outcome
+					reps := 1
+					for _, op := range ops {
+						if op.K == "S" && op.S == 1 {
+							reps = 6
+						}
 					}
-					out.Put(c)
+					seen := map[string]bool{}
+					for i := 0; i < reps; i++ {
+						c := runQCase(cfg.queue, cfg.nc, cfg.name, ops)
+						if c.Err != "" {
+							nerr++
+						}
+						b, _ := json.Marshal(c.Obs)
+						if seen[string(b)] && c.Err == "" {
+							continue
+						}
+						seen[string(b)] = true
+						out.Put(c)
+					}
 				}
 			})
 			total += cnt
